@@ -91,6 +91,13 @@ def daemonReceiveDepend (st : Store) (chan : Str) : Option (Str × Store × Str)
     | none => none
   | none => none
 
+/-- bash scoping of the receive step: the daemon evaluates the text inside one of its functions; `frame` = the
+names that function (and the functions it was called from) have declared `local` at that moment.  An assignment to
+such a name changes the function's local variable, which is gone once the function returns (and is not what an
+ebuild phase started later sees under that name); all other assignments reach the shell's variables. -/
+def Store.runIn (frame : List Str) (st : Store) (as : List Assign) : Store :=
+  st.run (as.filter fun a => !frame.contains a.key)
+
 /-- a path the `read` builtin hands over unchanged (bytes): non-empty, one line, no backslash, no trailing blank -/
 def PathOk (pb : Str) : Prop :=
   pb ≠ [] ∧ '\n' ∉ pb ∧ '\\' ∉ pb ∧ pb.getLast?.any isBlank = false
